@@ -830,6 +830,8 @@ def _masks_hfs_intersection(sym, ts, Ds, hfs):
         else:  # op[it - 1] == 's':
             lss = [_leg_structure_combine_charges_sum(tt1, DD1) for tt1, DD1, in zip(tt, DD)]
             ma = [_merge_masks_sum(ls1, ms1) for ls1, ms1 in zip(lss, mss)]
+            # keep only charges recorded for this space; some might have been dropped when it was fused further
+            ma = [{tx: mx for tx, mx in ma1.items() if tx in t1[it - 1]} for ma1, t1 in zip(ma, t)]
             reduced_ls = _leg_structure_combine_charges_sum(kts, kDs)
         _mask_falsify_mismatches_(ma[0], ma[1])
         msks[0].insert(io, ma[0])
